@@ -161,6 +161,8 @@ type History struct {
 	Mons  []Monitor
 	Gen   *TxGen
 	View  *View
+	// KMMon is the key manager monitor of the history (key manager support; nil without a key manager).
+	KMMon *KeyManagerMonitor
 
 	Height  int64
 	Time    time.Time
@@ -214,8 +216,22 @@ func NewHistory(cfg HistoryConfig, mons ...Monitor) (*History, error) {
 		return nil, fmt.Errorf("generated genesis document fails its sanity check: %w", err)
 	}
 	SetupProcess(sc.Doc)
+	// key manager support: every history with a key manager has a key manager monitor (for the counters;
+	// a check that owns the monitor's assertions passes its own, with a reporter).
+	var kmMon *KeyManagerMonitor
+	if sc.KM != nil {
+		for _, m := range mons {
+			if k, ok := m.(*KeyManagerMonitor); ok {
+				kmMon = k
+			}
+		}
+		if kmMon == nil {
+			kmMon = &KeyManagerMonitor{}
+			mons = append(append([]Monitor(nil), mons...), kmMon)
+		}
+	}
 	h := &History{
-		Cfg: cfg, Sc: sc, Mons: mons,
+		Cfg: cfg, Sc: sc, Mons: mons, KMMon: kmMon,
 		Rng:      rand.New(rand.NewPCG(cfg.Seed, 0x41157031)),
 		ValSets:  map[int64]ValSet{},
 		PathUsed: map[Path]int{},
